@@ -39,6 +39,7 @@ type variant struct {
 	Shards   int    `json:"shards"`
 	Iterate  bool   `json:"iterate"`
 	Delay    bool   `json:"delay"`
+	LIFO     bool   `json:"lifo"`
 }
 
 type harness struct {
@@ -363,6 +364,9 @@ func main() {
 			s = &varSummary{Harness: j.h.Name, Variant: j.v.Name, Bound: j.v.Bound, BoundCompleted: 1 << 30, Exhaustive: true, BoundKind: "preemptions+timer-first+environment deviations (free choice at blocking points)"}
 			if j.v.Delay {
 				s.BoundKind = "delay bounding: every deviation from the default scheduler (first enabled thread) counts, including at blocking points"
+			}
+			if j.v.LIFO {
+				s.BoundKind += "; default order: newest enabled thread first"
 			}
 			if j.kind != "sched" {
 				s.BoundKind = "enumeration domain"
